@@ -16,7 +16,7 @@ DefaultCfg ==
    chkLim |-> 2, immNak |-> TRUE, disp |-> FALSE, sIdW |-> 2, dIdW |-> 2, sId |-> 1, dId |-> 2, seqW |-> 2, seq0 |-> 0,
    indS |-> IndAll, indD |-> IndAll, fhS |-> FhDefault, fhD |-> FhDefault,
    file |-> <<48, 49, 50, 51, 52, 53, 54, 55, 56, 57, 65, 66>>, mdOnly |-> FALSE, srcName |-> "src.bin",
-   dstName |-> "dst.bin", dstShape |-> "file", dstOld |-> <<>>, msgs |-> <<>>, memfs |-> FALSE, more |-> <<>>]
+   dstName |-> "dst.bin", dstShape |-> "file", dstOld |-> <<>>, msgs |-> <<>>, xopts |-> <<>>, memfs |-> FALSE, more |-> <<>>]
 \* number a set of configurations (the id is how the harness refers to one)
 Numbered(set) == LET q == SetToSeq(set) IN { [q[i] EXCEPT !.id = i] : i \in DOMAIN q }
 FileOf(n) == [i \in 1..n |-> 10 + i]
